@@ -85,7 +85,7 @@ def s1(ctx, rep):
                 f"_schedule_new_tasks is reachable while {what}: " + str({k: v for k, v in (m or {}).items()}))
 
 
-def s2(ctx, rep):
+def s2(ctx, rep, clause="S2"):
     P = ctx.P
     f = P.method("Tuner", "run")
     tries = [st for st in f.node.body if isinstance(st, ast.Try) and st.finalbody]
@@ -97,7 +97,7 @@ def s2(ctx, rep):
     calls_before = [s for s in before if any(isinstance(x, ast.Call) and ctx.call_targets(f, x) and
                                              any(not isinstance(t, tuple) for t, h in ctx.call_targets(f, x))
                                              for x in walk_shallow(s))]
-    rep.put(loop_in_try and not calls_before, "S2", "finally", "Tuner.run: the tuning loop is inside the try whose finally cleans up",
+    rep.put(loop_in_try and not calls_before, clause, "finally", "Tuner.run: the tuning loop is inside the try whose finally cleans up",
             f, tr, "nothing that can start trials runs outside the try")
     order = []
     for i, st in enumerate(tr.finalbody):
@@ -112,7 +112,7 @@ def s2(ctx, rep):
             order.append(("_handle_failure", i, st))
     names = [o[0] for o in order]
     for nm in ("on_tuning_end", "stop_all", "mark_running_job_as_stopped"):
-        rep.put(names.count(nm) == 1, "S2", "finally", f"Tuner.run finally: unconditional {nm}", f,
+        rep.put(names.count(nm) == 1, clause, "finally", f"Tuner.run finally: unconditional {nm}", f,
                 [o[2] for o in order if o[0] == nm][0] if nm in names else tr,
                 "top-level statement of the finally suite: runs on normal and exceptional exit",
                 f"{nm} is not an unconditional statement of the finally suite of run(): "
@@ -121,14 +121,14 @@ def s2(ctx, rep):
                    "mark_running_job_as_stopped": "status counters still show running trials after run() returns"}[nm])
     want = ["on_tuning_end", "stop_all", "mark_running_job_as_stopped", "_handle_failure"]
     got = [n for n in names if n in want]
-    rep.put(got == want, "S2", "order", "Tuner.run finally: results stored ≺ stop_all ≺ status marked ≺ failure raised", f, tr,
+    rep.put(got == want, clause, "order", "Tuner.run finally: results stored ≺ stop_all ≺ status marked ≺ failure raised", f, tr,
             " ≺ ".join(got), "order in finally is " + " ≺ ".join(got))
     # CFG cross-check: every exit of run (normal and raising, from inside the try) passes stop_all
     cfg = cfg_of(f)
     bn = ctx.nodes(f, ctx.sel_call(method="stop_all", recv="TrialBackend"), "must", 0)
     first_try_nodes = [n.id for n in cfg.nodes if n.stmt is not None and any(n.stmt is s for s in stmts_in(tr.body))]
     p = cfg.path(first_try_nodes[:1], [cfg.exit, cfg.raise_exit], deleted=bn) if first_try_nodes else None
-    rep.put(bool(bn) and p is None, "S2", "must_follow", "Tuner.run: every exit after entering the try passes trial_backend.stop_all()",
+    rep.put(bool(bn) and p is None, clause, "must_follow", "Tuner.run: every exit after entering the try passes trial_backend.stop_all()",
             f, tr, f"{len(bn)} copies of the finally suite, none can be bypassed",
             witness=cfg.describe_path(p) if p else None)
     # the error names the failed trial
@@ -142,7 +142,7 @@ def s2(ctx, rep):
     cg = cfg_of(g)
     rn = [n.id for n in cg.nodes if n.kind == "stmt" and isinstance(n.ast, ast.Raise)]
     guarded = bool(rn) and all(ctx.has_fact(g, n, lambda a: a[0] == "eq" and a[3] is True and "Status.failed" in (a[1], a[2])) for n in rn)
-    rep.put(ok and guarded, "S2", "agreement", "Tuner._handle_failure raises an error naming a failed trial", g,
+    rep.put(ok and guarded, clause, "agreement", "Tuner._handle_failure raises an error naming a failed trial", g,
             raises[0] if raises else None, "raise ... f'{trial_id}' guarded by status == Status.failed")
 
 
